@@ -10,7 +10,7 @@ import (
 // Step is what the servers do with one attempt.
 type Step struct {
 	A string `json:"a"` // access: ok down refuse hang 4xx 5xx garbage emptyuri
-	W string `json:"w"` // websocket: down refuse 4xx 5xx garbage emptyuri accept accepthang hang
+	W string `json:"w"` // websocket: down refuse 4xx 5xx garbage emptyuri accept acceptdropw accepthang hang
 	K int    `json:"k"` // accept: messages each way before the drop
 }
 
@@ -76,6 +76,9 @@ func (s Step) coq() string {
 	if s.W == "accepthang" {
 		w = lib.App("AcceptThenHang", lib.Nat(s.K))
 	}
+	if s.W == "acceptdropw" {
+		w = lib.App("AcceptThenDropW", lib.Nat(s.K))
+	}
 	return lib.Tuple(accCoq[s.A], w)
 }
 
@@ -128,7 +131,7 @@ func stepFails(loop string, s Step) bool {
 	if loop == "auth" && s.A != "ok" {
 		return true
 	}
-	return s.W != "accept" && s.W != "accepthang"
+	return s.W != "accept" && s.W != "accepthang" && s.W != "acceptdropw"
 }
 
 // waitBefore is the generator's expectation of the wait in front of attempt i (used only to place
@@ -180,8 +183,8 @@ func genLoopCases(rng *lib.Rng, n int, thorough bool) []Case {
 		}
 		c := Case{Kind: "loop", Loop: loop, Min: cfgMin, Max: cfgMax, Factor: cfgFact}
 		var sched []Step
-		switch i % 6 {
-		case 0, 1: // long streak to the cap, a success, then failures again (reset)
+		switch i % 12 {
+		case 0, 1, 6: // long streak to the cap, a success, then failures again (reset)
 			nf := r.Range(3, 5)
 			for k := 0; k < nf; k++ {
 				sched = append(sched, genStep(r, loop, 0))
@@ -190,13 +193,23 @@ func genLoopCases(rng *lib.Rng, n int, thorough bool) []Case {
 			for k := r.Range(2, 3); k > 0; k-- {
 				sched = append(sched, genStep(r, loop, 0))
 			}
-		case 2, 3: // free mix
+		case 2, 3, 8, 9: // free mix
 			for k := r.Range(3, 8); k > 0; k-- {
 				sched = append(sched, genStep(r, loop, 30))
 			}
 		case 4: // mostly successes (accept then drop), with a failure here and there
 			for k := r.Range(3, 7); k > 0; k-- {
 				sched = append(sched, genStep(r, loop, 75))
+			}
+		case 5, 10: // refused handshakes until the backoff has grown, then a connection whose loss the WRITE loop
+			// notices first (r.In not consumed, client sending all the time), then failures again
+			fast := []string{"refuse", "4xx", "5xx", "garbage", "emptyuri", "down"}
+			for k := r.Range(3, 4); k > 0; k-- {
+				sched = append(sched, Step{A: "ok", W: r.Pick(fast)})
+			}
+			sched = append(sched, Step{A: "ok", W: "acceptdropw", K: 1})
+			for k := r.Range(2, 3); k > 0; k-- {
+				sched = append(sched, genStep(r, loop, 0))
 			}
 		default: // failures only
 			for k := r.Range(3, 6); k > 0; k-- {
@@ -205,7 +218,7 @@ func genLoopCases(rng *lib.Rng, n int, thorough bool) []Case {
 		}
 		// a slow failure now and then: the access POST that hangs until the client's own 10 s timeout
 		// (quick tier: every 18th schedule), in thorough also the 45 s websocket handshake timeout
-		if loop == "auth" && ((i%18 == 1) || (thorough && i%12 == 5)) {
+		if loop == "auth" && ((i%18 == 1) || (thorough && i%12 == 7)) {
 			k := r.Intn(len(sched) - 1)
 			sched[k] = Step{A: "hang", W: "down"}
 		}
